@@ -1,5 +1,5 @@
 (* Driver for M3 (server lifecycle).  Trace: first line "kind tcp|unix", then one label per line:
-   start | connect | connectbad | open | hello <c> | send <c> | sendwait <c> | leave <c> | abort <c> | stop.  Output: one observation line per label. *)
+   start | connect | connectbad | open | hello <c> | send <c> | sendwait <c> | leave <c> | abort <c> | stop | closepool.  Output: one observation line per label. *)
 open Common
 open SModel
 
@@ -15,11 +15,12 @@ let parse_label (s : string) : label =
   | ["leave"; c] -> LLeave (ni c)
   | ["abort"; c] -> LAbort (ni c)
   | ["stop"] -> LStop
+  | ["closepool"] -> LClosePool
   | _ -> failwith ("label " ^ s)
 
 let show (s : srv) : string =
-  Printf.sprintf "listening=%s done=%s sock=%s refused=%s conns=%s" (sb s.v_listening) (sb s.v_done)
-    (sb s.v_sockfile) (sn s.v_refused)
+  Printf.sprintf "listening=%s done=%s drain=%s overlap=%s raised=%s sock=%s refused=%s conns=%s" (sb s.v_listening) (sb s.v_done)
+    (string_of_int (L.length s.v_drain)) (sb s.v_overlap) (sb s.v_raised) (sb s.v_sockfile) (sn s.v_refused)
     (join_list "," (L.map (fun k -> sb k.k_client_open ^ ":" ^ sb (k.k_client_open && k.k_session) ^ ":" ^ sn k.k_replies)
                       s.v_conns))
 
